@@ -229,3 +229,56 @@ R("c02-r-ladder-locals", ["C02", "C04", "C06"], [(PROC, '''        if not result
         if not result.success and retries.max_amount > retries.already_tried:
             new_params = parameters._prepare_retry(actor.retry_policy(1 + retries.already_tried))
             await self._conn.message_broker.requeue(key, payload, new_params)''')])
+
+# ----------------------------------------------------------------------------------------------- C09 / C10 (runner)
+M("c10-gate-fix-reverted", ["C10"], [(RUN, '''            if self._tasks_started >= self.max_tasks:
+                # messages limit is exhausted: give the message back and stop consuming
+                self._limiter.release()
+                await self._conn.message_broker.reject(key)
+                return
+            self._tasks_started += 1
+''', "")], "R-C10-GATE")
+M("c10-gate-off-by-one", ["C10"], [(RUN, "if self._tasks_started >= self.max_tasks:", "if self._tasks_started > self.max_tasks:")], "R-C10-GATE")
+M("c10-gate-no-increment", ["C10"], [(RUN, "            self._tasks_started += 1\n", "")], "R-C10-GATE")
+M("c10-gate-permit-leak", ["C10", "C09"], [(RUN, "                self._limiter.release()\n                await self._conn.message_broker.reject(key)\n", "                await self._conn.message_broker.reject(key)\n")], None)
+M("c10-gate-no-reject", ["C10", "C03"], [(RUN, "                self._limiter.release()\n                await self._conn.message_broker.reject(key)\n                return\n", "                self._limiter.release()\n                return\n")], "R-C10-GATE")
+M("c10-gate-continue-instead-of-return", ["C10"], [(RUN, "                await self._conn.message_broker.reject(key)\n                return\n", "                await self._conn.message_broker.reject(key)\n                continue\n")], "R-C10-GATE")
+M("c10-stop-test-before-count", ["C10"], [(RUN, '''        self._tasks_processed += 1
+        if self.max_tasks_hit:
+            self.stop_consume_event.set()''', '''        if self.max_tasks_hit:
+            self.stop_consume_event.set()
+        self._tasks_processed += 1''')], "R-C10-STOP")
+M("c10-hit-strict", ["C10"], [(RUN, "            <= 0\n", "            < 0\n")], "R-C10-STOP")
+M("c10-plugin-limit-2", ["C10"], [("repid/testing/plugin.py", "messages_limit=1,", "messages_limit=2,")], "R-C10-PLUGIN")
+M("c09-spawn-before-acquire", ["C09"], [(RUN, '''            if self._limiter.locked():
+                await consumer.pause()
+                await self._limiter.acquire()
+                await consumer.unpause()
+            else:
+                await self._limiter.acquire()
+''', '''            if self._limiter.locked():
+                await consumer.pause()
+                await self._limiter.acquire()
+                await consumer.unpause()
+''')], "R-C09-PAIR")
+M("c09-no-callback", ["C09"], [(RUN, "            t.add_done_callback(self._task_callback)\n", "")], "R-C09-PAIR")
+M("c09-release-conditional", ["C09"], [(RUN, "        self._tasks.discard(task)\n        self._limiter.release()\n", "        self._tasks.discard(task)\n        if not task.cancelled():\n            self._limiter.release()\n")], "R-C09-PAIR")
+M("c09-double-release", ["C09"], [(RUN, "        await process_task\n", "        await process_task\n        self._limiter.release()\n")], "R-C09-PAIR")
+M("c09-limiter-wrong-size", ["C09"], [(RUN, "self._limiter = asyncio.Semaphore(tasks_concurrency_limit)", "self._limiter = asyncio.Semaphore(tasks_concurrency_limit + 1)")], "R-C09-OWN")
+M("c09-worker-limit-swapped", ["C09"], [("repid/worker.py", "            tasks_concurrency_limit=self.tasks_limit,\n", "            tasks_concurrency_limit=self.messages_limit,\n")], None)
+M("c09-unpause-missing", ["C09"], [(RUN, "                await self._limiter.acquire()\n                await consumer.unpause()\n", "                await self._limiter.acquire()\n")], "R-C09-PAUSE")
+M("c09-pause-after-acquire", ["C09"], [(RUN, "                await consumer.pause()\n                await self._limiter.acquire()\n                await consumer.unpause()", "                await self._limiter.acquire()\n                await consumer.pause()\n                await consumer.unpause()")], "R-C09-PAUSE")
+R("c09-r-single-acquire", ["C09", "C10"], [(RUN, '''            if self._limiter.locked():
+                await consumer.pause()
+                await self._limiter.acquire()
+                await consumer.unpause()
+            else:
+                await self._limiter.acquire()
+''', '''            saturated = self._limiter.locked()
+            if saturated:
+                await consumer.pause()
+            await self._limiter.acquire()
+            if saturated:
+                await consumer.unpause()
+''')])
+R("c10-r-gate-not-lt", ["C10"], [(RUN, "if self._tasks_started >= self.max_tasks:", "if not self._tasks_started < self.max_tasks:")])
